@@ -146,13 +146,17 @@ class LeanSide:
         if not names:
             self.audit_problems.append("no property theorems found")
             return
-        audit = os.path.join(LEAN, ".lake", f"audit_{self.pid}.lean")
+        audit = os.path.join(LEAN, ".lake", f"audit_{self.pid}_{os.getpid()}.lean")   # per process: concurrent runs do not race
         with open(audit, "w") as f:
             f.write(f"import FV.Props.{self.pid}\n")
             for n in names:
                 f.write(f"#print axioms {n}\n")
         p = subprocess.run(["lake", "env", "lean", audit], cwd=LEAN, capture_output=True, text=True, timeout=1800)
         out = p.stdout + p.stderr
+        try:
+            os.remove(audit)
+        except OSError:
+            pass
         found = {}
         for m in re.finditer(r"'([^']+)' depends on axioms: \[([^\]]*)\]", out.replace("\n", " ")):
             found[m.group(1)] = [a.strip() for a in m.group(2).split(",") if a.strip()]
